@@ -203,9 +203,11 @@ def tagsOf (tr : List (Op × Obs)) : List String :=
     acc ++ a.filter (fun x => !acc.contains x)) []
 
 def judgeSeq (tr : List (Op × Obs)) (tags : List String) : Verdict :=
-  match Spec.C09.check tr with
-  | some f => Verdict.fail (failReason f) tags
-  | none =>
+  let fails := Spec.C09.check tr
+  match fails.find? (fun f => !f.isStale), fails with
+  | some f, _ => Verdict.fail (failReason f) tags
+  | none, f :: _ => Verdict.fail (failReason f) tags
+  | none, [] =>
     { ok := true, tags := tags,
       nontrivial := tr.any fun (_, o) => match o with | .vals (_ :: _) => true | _ => false }
 
@@ -239,7 +241,7 @@ def oracle (obs : List (List String × String)) : Verdict :=
           match parseHist ths h with
           | none => Verdict.fail "bad-answer:history"
           | some calls =>
-            match Spec.C09.check tr with
+            match (Spec.C09.check tr).find? (fun f => !f.isStale) with
             | some f => Verdict.fail (failReason f) tags
             | none =>
               if Spec.C09.holdsOnConc tr calls then
